@@ -14,11 +14,11 @@ CHECKS = {
             "C01_quiescent / C01_disconnect / C01_sounding_explained: for every accepted configuration and every disciplined key history, nothing sounds when no key is down and nothing sounds after the disconnect clean-up (induction with counter = holders, tracker ⊆ keys down, sounding ⊆ tracked); per-event axis theorems from C08; C01_mixed_explained / C01_mixed_quiescent / C01_mixed_disconnect: the same three statements by one induction over histories mixing key, axis, SYN and MIDI-input events (invariant Mixed.MInv: sounding ⊆ key tracker ∪ axis tracker, counter = holders, one axis-tracker entry per deflected axis).",
             "Partial: histories mixing key and axis events are covered per event (C08) and by the differential run, not by one induction."),
     "C02": ("Lean 4 proof (per-step theorems over every invariant state) + differential correspondence",
-            "C02_release_pinned, C02_press_records, C02_frame_action_*, C02_actions_silent: the release emits only the Note Off recorded at the press; action keys never touch the tracker and emit nothing.", ""),
+            "C02_release_pinned, C02_press_records, C02_frame_action_*, C02_actions_silent: the release emits only the Note Off recorded at the press; action keys never touch the tracker and emit nothing. The same theorems in every non-crashed state of histories of all event kinds (C02_all_*, Props/C02mixed.lean): KInvReach.reachable_kinv + AnaIndep.handleKey_split (the key handler neither reads nor writes the analog tracker).", ""),
     "C03": ("Lean 4 proof (refinement counter = holders) + differential correspondence",
-            "C03_counter_is_holders (every reachable state), C03_press / C03_release / C03_last_release_only: exact output per collision mode in terms of holders.", ""),
+            "C03_counter_is_holders (every reachable state), C03_press / C03_release / C03_last_release_only: exact output per collision mode in terms of holders; C03_all_press / release / last_release_only and C03_all_history for histories mixing keys, axes, SYN and MIDI input (Props/C03mixed.lean).", ""),
     "C04": ("Lean 4 proof + differential correspondence",
-            "C04_press / C04_resolve (note, channel, velocity formula in unbounded integers, silent out of range), C04_pair_reset, C04_bounds, C04_unit_step, C04_init, C04_monitor (no monitor failure on any key-only history), C04_source_facts (octave/semitone are int fields).",
+            "C04_press / C04_resolve (note, channel, velocity formula in unbounded integers, silent out of range), C04_pair_reset, C04_bounds, C04_unit_step, C04_init, C04_monitor (no monitor failure on any key-only history), C04_source_facts (octave/semitone are int fields); C04_all_press(_fresh), C04_all_unit_step, C04_all_bounds on histories of all event kinds (Props/C04mixed.lean).",
             "Go int modelled as unbounded integers."),
     "C05": ("Lean 4 proof (invariant over all events incl. axes) + differential correspondence",
             "C05_run: every message of every run of an accepted configuration with in-range axis events is a well-formed 3-byte channel message; C05_cleanup for the disconnect.",
@@ -41,9 +41,9 @@ CHECKS = {
     "C12": ("Lean 4 proof over loader model + differential correspondence on generated trees",
             "(theorems for the loader model are being added; at present the decision rests on the differential run and the independent precedence rule evaluated on the implementation)", ""),
     "C13": ("Lean 4 proof + differential correspondence",
-            "C13_messages, C13_quiet, C13_state, C13_press_release_identity, C13_ext_irrelevant, C13_as_if_not_happened (any continuation produces the same output as without the panic).", ""),
+            "C13_messages, C13_quiet, C13_state, C13_press_release_identity, C13_ext_irrelevant, C13_as_if_not_happened (any continuation produces the same output as without the panic); C13_all_messages / C13_all_trackers in every state of mixed histories (Props/C13mixed.lean).", ""),
     "C14": ("Lean 4 proof + differential correspondence",
-            "C14_signal_iff, C14_completing_press, C14_tracker_is_keys_down, C14_never_when_empty(_history).",
+            "C14_signal_iff, C14_completing_press, C14_tracker_is_keys_down, C14_never_when_empty(_history); on histories of every event kind (keys, axes of all types, SYN, MIDI input; Props/C14mixed.lean): C14_all_signal_iff (signal iff a key press completing the sequence; axis / SYN / MIDI-input events never raise it), C14_all_tracker, C14_all_history, C14_all_never_when_empty.",
             "The blocking send on the signal channel is not modelled."),
     "C15": ("Lean 4 proof over transition-system models of the fan-out and the relay (all interleavings of the model) + source fact regenerated from fan.go + scripted and free-running runs of the real goroutines",
             "C15_fan_exactly_once (for every schedule each connected output has been given exactly the block of the dispatch log since its spawn, in order — HidiProofs/FanLemmas.lean), C15_fan_quiescent, C15_ids_distinct, C15_relay_order / C15_relay_complete (per emitter: exactly once, in emission order), C15_source_facts (send selected against a per-output leaving signal), C15_despawn_blocks_unguarded (witness of the repaired deadlock), C15_despawn_completes_on_wedge, C15_despawn_completes (progress: from every reachable state of the guarded fan-out with a removal pending, at most 2*|outputs|+5 enabled steps of the dispatcher, the remover and consumers that have not been told to leave return the call; never a step of the removed consumer — HidiProofs/FanLive.lean).",
